@@ -1,5 +1,6 @@
 From Coq Require Extraction.
 From Coq Require Import ExtrOcamlBasic.
-From NV Require Import Base.Witness CramRec.Features CramRec.Container.
+From NV Require Import Base.Witness CramRec.Features CramRec.Container CramRec.Mates.
 Extraction "model.ml" nv_types_witness roundtrip default_sm
-  build_container mk_desc_block mkslice.
+  build_container mk_desc_block mkslice
+  mates_roundtrip samrec_of mate_view.
